@@ -874,6 +874,31 @@ def constrained_option_in_incompatibility(case):
     return False
 
 
+def orphan_required_connector(case):
+    """K33 guard: a connector that needs at least one connection, exists only conditionally, and takes part in no
+    connection choice that survives the removal of unreachable nodes"""
+    kinds = {int(k): v for k, v in case.get('kinds', {}).items()}
+    P = potential_nodes(case)
+    permanent = py_closure(case, {})
+    covered = set()
+    for cc in case.get('conn', []):
+        tops = [e if isinstance(e, int) else e[0] for e in cc['src']]
+        if not any(t in P for t in tops):
+            continue
+        for e in cc['src'] + cc['tgt']:
+            covered.add(e if isinstance(e, int) else e[0])
+            if not isinstance(e, int):
+                covered.update(e[1])
+    for i, k in kinds.items():
+        if k[0] != 'conn' or i not in P or i in permanent or i in covered:
+            continue
+        d = k[1]
+        zero_ok = (0 in d[1]) if d[0] == 'list' else d[1] == 0
+        if not zero_ok:
+            return True
+    return False
+
+
 def guards(case):
     """ids of the known-finding classes this case falls into"""
     case = {k: v for k, v in case.items() if not k.startswith('_')}
